@@ -65,6 +65,9 @@ def label(rng, used=(), real=0.6, maxlen=6):
 
 
 def species_list(rng, n, real=0.6, maxlen=6, lookalike=False):
+  if lookalike and rng.random() < 0.07:
+    # species labelled by number (type ids): '9' and '10', '2' and '10', '1' and '100' - text order is not numeric order
+    return rng.sample(["1", "2", "3", "9", "10", "11", "12", "20", "100"], n)
   out = []
   for _ in range(n):
     out.append(label(rng, out, real, maxlen))
@@ -1023,3 +1026,55 @@ def share_leading_range(rng, model, keys=("density", "pair", "embed", "dipole", 
     ents[j][-1] = {"k": "ranges", "parts": [[m0, s0, dict(first)], [m1, s1, b]]}
     n += 1
   return n
+
+
+def rename_species(model, mapping):
+  """Rename the species labels of a model (all sections, [Species] overrides included)."""
+  m = copy.deepcopy(model)
+  g = lambda x: mapping.get(x, x)
+  if m.get("all_species"):
+    m["all_species"] = [g(x) for x in m["all_species"]]
+  for key in ("pair", "embed", "density", "dipole", "quadrupole"):
+    for ent in m.get(key) or []:
+      for k in range(len(ent) - 1):
+        ent[k] = g(ent[k])
+  if m.get("species"):
+    m["species"] = {g(k): v for k, v in m["species"].items()}
+  return m
+
+
+def hyphenated_species_model(rng, kind, target):
+  """Four elements A, A-B, B-C, C (labels with hyphens are possible through the Python API only) with different pair
+  potentials declared for (A, B-C) and (A-B, C): as text both pairs read 'A-B-C'."""
+  m = gen_eam_model(rng, kind, "api", nspecies=4, target=target, underspecified=0, with_forms=False)
+  sp = m["all_species"]
+  a, b, c = "Al", "O", "H"
+  m = rename_species(m, {sp[0]: a, sp[1]: "%s-%s" % (a, b), sp[2]: "%s-%s" % (b, c), sp[3]: c})
+  mk = lambda v: {"k": "form", "name": "polynomial", "p": [v, rfloat(rng, 0.1, 1.0)]}
+  m["pair"] = [[a, "%s-%s" % (b, c), mk(3.0)], ["%s-%s" % (a, b), c, mk(-5.0)], [a, a, mk(1.0)]]
+  rng.shuffle(m["pair"])
+  if m.get("species"):
+    for k_ in list(m["species"]):
+      m["species"][k_].setdefault("atomic_number", 13)
+      m["species"][k_].setdefault("atomic_mass", 26.98)
+  for k_ in m["all_species"]:
+    m.setdefault("species", {}).setdefault(k_, {}).setdefault("atomic_number", 13)
+    m["species"][k_].setdefault("atomic_mass", 26.98)
+  return m
+
+
+def numeric_species(rng, model):
+  """The same model with its species labelled by number ('9', '10', '2', '100'): text order and numeric order differ."""
+  pool = ["9", "10", "2", "100", "11", "1"]
+  names = list(model.get("all_species") or [])
+  for key in ("pair", "dipole", "quadrupole"):
+    for ent in model.get(key) or []:
+      for x in ent[:2]:
+        if x not in names:
+          names.append(x)
+  mapping = {n_: pool[i % len(pool)] for i, n_ in enumerate(names)}
+  m = rename_species(model, mapping)
+  for k_ in m.get("all_species") or []:
+    m.setdefault("species", {}).setdefault(k_, {}).setdefault("atomic_number", rng.randint(1, 90))
+    m["species"][k_].setdefault("atomic_mass", rfloat(rng, 1.0, 200.0, 2))
+  return m
